@@ -39,6 +39,16 @@ CHECKS = {
             "Seeded search over worlds of the literal class of the statement (sequential boots with off time >= 1 ms, one constant delay per boot 0-90 s, arbitrary in-boot stream order, 1-2 message boots, first timestamp 0, optional > 10 s gap, 1-4 ECUs interleaved arbitrarily); partition, start, end and count per boot compared exactly with the ground truth. One open finding family (late-connect overlap) is recognised structurally on the ground truth and reported as KNOWN-FINDING; any deviation involving a boot outside such an overlap is a violation. Sampling, not proof.",
             "The generator is the encoding of the class and is re-checked on the concrete world before judging; the finding predicate is evaluated on ground truth, never on the detector's output.",
             "DESIGN.md §6 C08"),
+    "C06": ("pipesim", "exploration",
+            "deterministic simulation: real lifecycle stage between producer/consumer/poller threads under a seeded shuttle scheduler with channel-capacity and pacing knobs",
+            "Seeded search over schedules (shuttle random / PCT depth 1-4 / round robin, one schedule per run) x channel capacities (0, 1, 2, small, 1024) x producer/consumer pacing x simulated worlds (as C05). The shared lifecycle table is looked up at every delivery point inside the stage's thread, on receipt in the consumer thread and by a third polling thread that must never miss the lifecycle of an already delivered message. Sampling, not proof.",
+            "shuttle runs one thread at a time with sequentially consistent memory: weak-memory effects and evmap's internal concurrency are not explored; harness readers never hold an evmap guard across a scheduling point.",
+            "DESIGN.md §6 C06"),
+    "C13": ("pipesim", "exploration",
+            "deterministic simulation: pipelines of the real stage functions as shuttle threads over bounded channels vs. sequential unbounded reference; consumer-disappears fault",
+            "Seeded search over schedules x channel capacities (0/1/2/3-16/1024 per channel) x producer bursts/stalls x consumer stalls x early consumer drop, over pipelines assembled like convert.rs from lifecycle, plugins (FileTransfer, Rewrite), sort and filter stages, each sending with the blocking-send helper. Delivered sequence and final lifecycle table compared with the same stages run sequentially over unbounded channels (ids renamed by first appearance; multiset only when sorted); on consumer drop every thread must terminate (deadlock / step-bound overrun = violation), nothing delivered twice, delivered prefix equals the reference. Sampling, not proof.",
+            "Same scheduler assumptions as C06; the reference run is real code too (same process, simple schedule).",
+            "DESIGN.md §6 C13"),
 }
 
 NOT_APPLICABLE = {
